@@ -87,7 +87,7 @@ Proof. apply (progress_count (ceq 32) KSpace). Qed.
 Lemma progress_newlines src : progress src (lex_newlines src).
 Proof. apply (progress_count (ceq 10) KNewline). Qed.
 
-Lemma progress_plural_digit src : progress src (lex_plural_digit src).
+Lemma progress_plural_digit u src : progress src (lex_plural_digit u src).
 Proof.
   intros n k H. unfold lex_plural_digit in H. destruct src as [|c0 r1]; [discriminate|].
   destruct (is_ascii_alphanumeric c0); cbn [negb] in H; [|discriminate].
@@ -96,10 +96,10 @@ Proof.
   - destruct (ceq c 39).
     + destruct t as [|c' t']; [discriminate|]. destruct (ceq c' 115); [|discriminate].
       destruct t' as [|d t'']; [injection H as <- _; cbn; nlia|].
-      destruct (is_ascii_alphanumeric d); cbn [negb] in H; [discriminate|]. injection H as <- _. cbn. nlia.
+      destruct (u_alphanumeric u d); cbn [negb] in H; [discriminate|]. injection H as <- _. cbn. nlia.
     + destruct (ceq c 115); [|discriminate].
       destruct t as [|d t']; [injection H as <- _; cbn; nlia|].
-      destruct (is_ascii_alphanumeric d); cbn [negb] in H; [discriminate|]. injection H as <- _. cbn. nlia.
+      destruct (u_alphanumeric u d); cbn [negb] in H; [discriminate|]. injection H as <- _. cbn. nlia.
 Qed.
 
 Lemma progress_hex u src : progress src (lex_hex_number u src).
@@ -126,10 +126,18 @@ Proof.
   - destruct (u_alphanumeric u c5); [discriminate|]. injection H as <- _. cbn. nlia.
 Qed.
 
+(* a finite parse is a parse *)
+Lemma parse_finite_some s neg mant ex :
+  parse_finite s = Some (neg, mant, ex) -> parse_f64 s = Some (neg, mant, ex) /\ f64_finite mant ex = true.
+Proof.
+  unfold parse_finite. destruct (parse_f64 s) as [[[n m] e]|]; [|discriminate].
+  destruct (f64_finite m e) eqn:F; [|discriminate]. intros H; injection H as -> -> ->. split; [reflexivity|exact F].
+Qed.
+
 Lemma longest_float_bound s : forall n m k, longest_float n s = Some (m, k) -> 1 <= m <= n.
 Proof.
   induction n as [|n IH]; intros m k H; cbn [longest_float] in H; [discriminate|].
-  cbv zeta in H. destruct (parse_f64 (firstn (S n) s)) as [[[neg mant] ex]|].
+  cbv zeta in H. destruct (parse_finite (firstn (S n) s)) as [[[neg mant] ex]|].
   - injection H as <- _. nlia.
   - apply IH in H. nlia.
 Qed.
